@@ -20,11 +20,11 @@ CHECKS = {
         note="Sampled histories; known finding F5 matched by predicate (spec clock >= 128, engine = spec - 256, all other fields equal).", ref="DESIGN.md section 4 C02"),
     "C03": dict(
         cat="model_checking", tech="TLC trace validation of nested make/undo/null walks against Game.tla's stack machine with full snapshots",
-        text="Recorder performs exhaustive depth-2 trees over all pseudo-legal moves (illegal ones made and undone), random nested walks, null moves, and walks after 90-170 ply games; every event logs all fields, both counters, the hash and the entire hash history. GameTrace pops Game.tla's stack on undo and requires the logged snapshot to equal the one logged before the matching make.",
+        text="Recorder performs exhaustive depth-2 trees over all pseudo-legal moves (illegal ones made and undone), random nested walks, null moves, walks after 90-200 ply games (strictly reversible ones take the 8-bit clock past 127), and 2,100-ply marathon games with make/undo pairs around the 2,048th ply and a full take-back; every event logs all fields, both counters, the hash and the entire hash history. GameTrace pops Game.tla's stack on undo and requires the logged snapshot to equal the one logged before the matching make.",
         note="Sampled walks; snapshot equality is on projected fields + hash history (hook VerifHashes).", ref="DESIGN.md section 4 C03"),
     "C04": dict(
         cat="model_checking", tech="TLC trace validation: incremental hash vs scratch hash, three placements, key<->hash bijection per game, constructed transposition pairs judged by the spec's Key",
-        text="Every event logs Hash(), the from-scratch hash, and three independently derived placements; within each game TLC requires equal keys <=> equal hashes; transposition pairs (permuted move orders incl. null moves) are judged by Chess!Key: same key iff same hash.",
+        text="Every event logs Hash(), the from-scratch hash, and three independently derived placements; within each game TLC requires equal keys <=> equal hashes; transposition pairs (permuted move orders incl. null moves) are judged by Chess!Key: same key iff same hash. All 781 Zobrist keys are derived from hashes of one-feature position pairs and must be pairwise distinct and non-zero.",
         note="64-bit hash collisions assumed absent within a run.", ref="DESIGN.md section 4 C04"),
     "C05": dict(
         cat="model_checking", tech="exhaustive 2^15 encodings per sampled position; accepted set = generated set = Pseudo(pos) of Chess.tla, judged by TLC",
@@ -36,7 +36,7 @@ CHECKS = {
         note="Sampled positions.", ref="DESIGN.md section 4 C09"),
     "C10": dict(
         cat="model_checking", tech="TLC trace validation of Threefold() against RepCount over Chess!Key histories; UCI path via go depth 1",
-        text="Shuffling and random histories up to 120-300 plies incl. roots with dead en-passant targets and double pushes next to non-capturing pawns; Threefold() after every move must equal min(3, occurrences of the current key). Through the driver: a non-final-by-other-means root answers bestmove 0000 exactly at the third occurrence. Known finding F4 (root FEN with dead target) matched by predicate.",
+        text="Shuffling and random histories up to 120-300 plies incl. roots with dead en-passant targets, double pushes next to non-capturing pawns, triangulations (the first position recurs after 6 and 10 plies), take-backs followed by other lines with the count asked for only now and then, two lines of equal length into one position; boards set up by ParseFEN into a used Board; Zobrist keys pairwise distinct; Threefold() after every move must equal min(3, occurrences of the current key). Through the driver: a non-final-by-other-means root answers bestmove 0000 exactly at the third occurrence. Known finding F4 (root FEN with dead target) matched by predicate.",
         note="Sampled histories; F4 matched only when the root entry is the single missed occurrence.", ref="DESIGN.md section 4 C10"),
     "C12": dict(
         cat="model_checking", tech="exhaustive dump of attack tables judged entry-by-entry by Geometry.tla ray walking in TLC; mask lemma checked exhaustively",
@@ -44,7 +44,7 @@ CHECKS = {
         note="Complete for the stated index space.", ref="DESIGN.md section 4 C12"),
     "C14": dict(
         cat="model_checking", tech="Apalache proves the requirement for the formula model on the full domain; TLC binds formula model and requirement to VerifLimits and to a real driver",
-        text="TimeCtl.tla states the requirement and the formula model; Apalache discharges Requirement(HardModel) for t in 1..10^12, inc in 0..10^9; TLC checks every recorded clock state (dense boundary grid, random to 10^12, both colours, movetime variants, 8 opponent clocks each incl. 0/absent, driver path) against requirement and formula model. Six deadline probes per run: a blocking search under go wtime / go ponder+ponderhit while the GUI keeps sending harmless lines must be ended by the driver's timer within hard + 5 s (one-sided).",
+        text="TimeCtl.tla states the requirement and the formula model; Apalache discharges Requirement(HardModel) for t in 1..10^12, inc in 0..10^9; TLC checks every recorded clock state (dense boundary grid, random to 10^12, both colours, movetime variants, 8 opponent clocks each incl. 0/absent, driver path) against requirement and formula model. Nine deadline probes per run (three of them with the search one ply below the root and 200x more time on the opponent's clock); every driver-path clock state also as the second go of a session (limits of an earlier go must be gone): a blocking search under go wtime / go ponder+ponderhit while the GUI keeps sending harmless lines must be ended by the driver's timer within hard + 5 s (one-sided).",
         note="Formula model compared below ~9*10^8 only (32-bit TLC integers); requirement compared everywhere via limbs.", ref="DESIGN.md section 4 C14"),
 }
 
@@ -52,15 +52,15 @@ CHECKS = {
 CHECKS.update({
     "C06": dict(
         cat="model_checking", tech="Search.tla exhaustively model-checked (every abort point / stop arrival / final and non-final roots); TLC trace validation of real search.Go and UCI go runs against Chess.tla",
-        text="Real searches on corpus, boxed-king, castle-stress and random roots with game prefixes (incl. second/third occurrences): every hard node budget 0..k on ONE engine instance (each k is one abort point, engine searched again after each abort), soft limits, pre-closed stop, stop closed when the depth-d info line passes, TT sizes 32 kB/1 MB/16 MB, used engines on new positions; UCI go with arbitrary numeric arguments. TLC computes root, legal set and finality from FEN + prefix and requires: move null or legal, null only if final, completed search on a final root returns null with score 0/mated, board snapshot identical, one bestmove. Known finding F4-C06 matched by predicate.",
+        text="Real searches on corpus, boxed-king, castle-stress and random roots with game prefixes (incl. second/third occurrences): every hard node budget 0..k on ONE engine instance (each k is one abort point, engine searched again after each abort), soft limits, pre-closed stop, stop closed when the depth-d info line passes, TT sizes 32 kB/1 MB/16 MB, used engines on new positions; positions the table cannot tell apart (same bucket and 16-bit signature, found by brute force for small tables) searched one after the other on one engine under every early abort; UCI go with arbitrary numeric arguments. TLC computes root, legal set and finality from FEN + prefix and requires: move null or legal, null only if final, completed search on a final root returns null with score 0/mated, board snapshot identical, one bestmove. Known finding F4-C06 matched by predicate.",
         note="Sampled roots and limits; Search.tla's tree search is abstract.", ref="DESIGN.md section 4 C06"),
     "C07": dict(
         cat="model_checking", tech="TLC replays every reported principal variation through Chess!Make/Legal; Search.tla properties DepthsIncrease/NodesMonotone/BestIsHeadOfLastPV",
-        text="Deeper searches (depth up to 8/9) along games on one engine (warmed tables), repetition-heavy histories, tiny 32 kB tables; every pv of every info line must be a legal line from the root, the returned move the head of the most recent non-empty pv, the ponder move legal after it, depths strictly increasing, node counts non-decreasing.",
+        text="Deeper searches (depth up to 8/9) along games on one engine (warmed tables), repetition-heavy histories, tiny 32 kB tables, roots with the clock at 94..99, roots whose children collide in the table with an earlier root; every pv of every info line must be a legal line from the root, the returned move the head of the most recent non-empty pv, the ponder move legal after it, depths strictly increasing, node counts non-decreasing.",
         note="Sampled searches.", ref="DESIGN.md section 4 C07"),
     "C08": dict(
         cat="model_checking", tech="whole games on separate engine instances: soft-limit run A, concurrent repeats C/D, hard-budget replay B; ReproTrace.tla compares lines, results, node counts and state digests; Search.tla NeverOverBudget/NoStoreAfterAbort",
-        text="Engines are run exactly as the UCI driver runs them (no counters handed in), boards from board.StartPos() and FEN; A=C=D on every search (info lines without time, result, node count, digest of TT+histories+generation), B (hard budget = A's node count) reproduces A's result, lines, node count and digest with at most one extra abort line; nodes <= hard at every event incl. every budget 0..k in sweeps and ponder searches with small hard budgets.",
+        text="Engines are run exactly as the UCI driver runs them (no counters handed in), boards from board.StartPos() and FEN; A=C=D on every search (info lines without time, result, node count, digest of TT+histories+generation), B (hard budget = A's node count) reproduces A's result, lines, node count and digest with at most one extra abort line; through real drivers: the same depth- or node-limited request on a fresh driver and on one with a past before ucinewgame (clock-limited search, stopped ponder search, table shrunk-cleared-grown) gives the same lines; nodes <= hard at every event incl. every budget 0..k in sweeps and ponder searches with small hard budgets.",
         note="Digest is FNV over TT + history tables (verif hook).", ref="DESIGN.md section 4 C08"),
     "C11": dict(
         cat="exploration", tech="TLC (Fen.tla) generates canonical texts with their positions and all single syntactic edits; Go replayer probes parser/printer/UCI; TLC judges (FenTrace.tla); round trip via GameTrace",
@@ -68,15 +68,15 @@ CHECKS.update({
         note="Not a byte-level fuzzer: single edits of canonical texts (ANY expanded to 256 bytes).", ref="DESIGN.md section 4 C11"),
     "C13": dict(
         cat="model_checking", tech="Uci.tla exhaustively model-checked (all conforming scripts <= 3/4 commands: safety, deadlock freedom, termination); observable-event trace validation with TLC inferring the driver's hidden steps; race detector",
-        text="Random conforming GUI scripts drive a real uci.Driver over pipes with a controllable mock search (info / poll stop / poll ponderhit / finish on command) or the real search, racing or waiting, slow output sink; only observable events (command about to be sent, line arrived, mock search steps, exit) are logged and every scenario must be a behaviour of Uci.tla up to Run returning with all goroutines gone; a harness wait that times out is accepted only where the model is quiescent too (else: deadlock/lost answer). A quarter of the scenarios run under the race detector; output lines are matched against the output grammar (torn lines).",
+        text="Random conforming GUI scripts drive a real uci.Driver over pipes with a controllable mock search (info / poll stop / poll ponderhit / finish on command) or the real search, racing or waiting, slow and stalling output sink, 350-byte info lines, info bursts whose writes race with the next GUI command; only observable events (command about to be sent, line arrived, mock search steps, exit) are logged and every scenario must be a behaviour of Uci.tla up to Run returning with all goroutines gone; a harness wait that times out is accepted only where the model is quiescent too (else: deadlock/lost answer). A quarter of the scenarios run under the race detector; output lines are matched against the output grammar (torn lines).",
         note="Timeouts are 20 s with everything else idle; -race build uses -d=checkptr=0.", ref="DESIGN.md section 4 C13"),
     "C15": dict(
         cat="model_checking", tech="TT.tla (code-shaped table + ghost 'what was stored') exhaustively model-checked on small domains and simulated on real widths; lock-step trace validation of a real transp.Table with colliding keys",
-        text="Operation sequences (store/probe/clear/resize-then-clear, bare resize followed by use) on tables of 1..32768 buckets with keys constructed to collide in bucket and/or signature, generations incl. wrap, depths/plies 0..63, scores across mate and boundary values; after every store the dumped bucket must equal TT.tla's bucket, every probe must satisfy ProbeOK (the property on the ghost state) and equal the model's probe; ProbeAfterStore, AtMostOneEviction, match64 lane selection.",
+        text="Operation sequences (store/probe/clear/resize-then-clear, bare resize followed by use) on tables of 1..524291 buckets (incl. 16 MB + 1..3 buckets) with keys constructed to collide in bucket and/or signature, generations incl. wrap, depths/plies 0..63, scores across mate and boundary values; after every store the dumped bucket must equal TT.tla's bucket, every probe must satisfy ProbeOK (the property on the ghost state) and equal the model's probe; ProbeAfterStore, AtMostOneEviction, match64 lane selection.",
         note="Victim choice is modelled (any divergence from the code's choice is reported); the exact mate boundary +-(Inf-64) accepts both readings.", ref="DESIGN.md section 4 C15"),
     "C16": dict(
         cat="model_checking", tech="Picker.tla and History.tla model-checked (permutation / hash-first for all small instances; one-step band bound over all stored values x bonuses; necessity counterexample); TLC trace validation of picker runs and gravity triples",
-        text="Picker iterated to exhaustion for sampled positions x hash-move candidates (every generated move, none, random and near-miss encodings, the four castling encodings) x history states (empty, driven, saturated): yielded = Pseudo(pos) exactly once each, hash move first iff pseudo-legal (spec's notion), weights inside their bands. Gravity: (table, stored value, bonus, new value) for all three tables against History!Step and the band.",
+        text="Picker iterated to exhaustion for sampled positions x hash-move candidates (every generated move, none, random and near-miss encodings, the four castling encodings) x history states (empty, driven, saturated), read-only and with the search's write-back of a value into the yielded entry: yielded = Pseudo(pos) exactly once each, hash move first iff pseudo-legal (spec's notion), weights inside their bands. Gravity: (table, stored value, bonus, new value) for all three tables against History!Step and the band.",
         note="Positions sampled; History one-step bound exhaustive in the thorough tier, thinned rows in quick.", ref="DESIGN.md section 4 C16"),
     "C17": dict(
         cat="exploration", tech="TLC (HeurTrace.tla) re-establishes mirror / same-eval-key relations with Chess!Mirror and requires equal evaluations",
